@@ -177,8 +177,8 @@ impl Prop for C04 {
         v
     }
     fn strategy(&self, _tier: Tier) -> BoxedStrategy<SpCase> {
-        let small = graph_strategy(&ALL_KINDS, 0, 9, max_edges_small, &[0, 1, 1, 3, 3, 2, 4, 5, 6], 4);
-        let mid = graph_strategy(&ALL_KINDS, 10, 20, max_edges_large, &[0, 1, 3, 4, 5, 6], 3);
+        let small = graph_strategy(&ALL_KINDS, 0, 9, max_edges_small, &[0, 1, 1, 3, 3, 2, 4, 5, 6, 15], 4);
+        let mid = graph_strategy(&ALL_KINDS, 10, 20, max_edges_large, &[0, 1, 3, 4, 5, 6, 15], 3);
         let large = graph_strategy(&ALL_KINDS, 21, 34, max_edges_large, &[0, 1, 3, 4, 5, 6], 3);
         let boundary = boundary_graph_strategy(&ALL_KINDS, max_edges_large, &[0, 1, 3], 3, 255).prop_map(|g| tame_path_counts(g, 34));
         (prop_oneof![1500 => small, 100 => mid, 50 => large, 1 => boundary], any::<u32>()).prop_map(|(g, sources)| SpCase { g, sources }).boxed()
@@ -218,9 +218,13 @@ impl Prop for C04 {
         let modes: Vec<bool> = if ng.weighted { vec![true, false] } else { vec![false] };
         for weighted in modes {
             let w = weight_matrix(&ng, weighted);
-            let positive = !weighted || matches!(case.g.wmode, 1 | 3 | 5 | 6);
-            let exact_arith = !weighted || !matches!(case.g.wmode, 4 | 7);
+            let positive = !weighted || matches!(case.g.wmode, 1 | 3 | 5 | 6 | 15);
             let d = floyd(&w);
+            // neighbouring doubles (mode 15): exact iff every distance is below 4 (oracle::ulp_exact)
+            let exact_arith = !weighted || !(matches!(case.g.wmode, 4 | 7) || (case.g.wmode == 15 && !crate::oracle::ulp_exact(&d)));
+            if weighted && case.g.wmode == 15 && exact_arith {
+                out.class("wmode_15_routes_one_ulp_apart_possible");
+            }
             let mname = if weighted { "weighted" } else { "hops" };
             let mut all: Vec<HashMap<String, ShortestPathInfo<String>>> = vec![];
             let sources: Vec<usize> = if n > 40 { vec![0, n / 2, n - 1, (case.sources as usize) % n] } else { (0..n).collect() };
